@@ -8,8 +8,7 @@ float (t/8) or an int (t//8, only when 8 | t).
 op  = ["reset"] | ["setup"] (life cycle: Simulator.reset(), setup(<a new model>)) |
       ["sched", kind, t, fl, prio, tag, holder, body] | ["cancel", tag] | ["drop", holder]
     | ["until", t, fl] | ["for", d, fl] | ["next"] | ["peek", n]
-act = ["sched", ...same...] | ["cancel", tag] | ["drop", holder] | ["raise"] (the user callable raises; only in cases
-      marked "exc": true, which are judged by the oracle alone)
+act = ["sched", ...same...] | ["cancel", tag] | ["drop", holder] | ["raise"] (the user callable raises UserBoom: ARaise in the model)
 kind in now|rel|abs|tick, prio in L|D|H.  Tags are unique per case; model.step events show as tag -1.
 
 User code: an event's callable is the bound method `fire` of a Holder object (even holder ids; WeakMethod) or a plain
@@ -726,8 +725,6 @@ def run_impl(case):
             fails.append({"key": f"C15/{CLS[case['cls']]}/chunking/one-piece-run-raised", "op": -1, "what": f"{type(e).__name__}: {e}"})
         if _MODE["float"]:
             return {"obs": [[_obs_int(x) for x in ob] for ob, _ in recs], "failures": fails, "model": False}
-        if case.get("exc"):
-            return {"obs": [ob for ob, _ in recs], "failures": fails, "model": False}
         return {"obs": [ob for ob, _ in recs], "failures": fails}
     finally:
         _MODE["float"] = False
@@ -740,6 +737,8 @@ def coq_act(a):
         return f"ASched {KNAME[kind]} {L.z(t)} {PNAME[prio]} {L.z(tag)} {L.z(h)} {L.lst([coq_act(x) for x in body])}"
     if a[0] == "cancel":
         return f"ACancel {L.z(a[1])}"
+    if a[0] == "raise":
+        return "ARaise"
     return f"ADrop {L.z(a[1])}"
 
 
@@ -769,7 +768,7 @@ def coq_xop(op):
 
 
 def coq_case(case):
-    if case.get("float") or case.get("exc"):   # never evaluated by the model; only printed if a replay file asks for model observations
+    if case.get("float"):   # never evaluated by the model; only printed if a replay file asks for model observations
         return "{| x_cfg := {| c_abm := false; c_script := [] |}; x_setup := true; x_fuel := 1%nat; x_ops := [] |}"
     script = L.lst([L.pair(L.z(k), L.lst([coq_act(a) for a in acts])) for k, acts in case.get("script", [])])
     cfg = f"{{| c_abm := {L.b(case['cls'] == 'ABM')}; c_script := {script} |}}"
